@@ -77,6 +77,43 @@ def run_tlc_many(jobs, timeout=3000):
     return results
 
 
+def split_side(side_path, prefix):
+    """Side-channel lines -> {kind: (trace file, n)}: batches {kind, docs} stay contiguous, single
+    documents go by their "op" (table observations).  Like ingest_common.split_side, but lines are
+    written compactly ("op":"reset" without a space is what vlib.split_traces looks for)."""
+    files = {}
+
+    def out(kind):
+        if kind not in files:
+            p = os.path.join(vlib.sub("traces"), "%s.%s.ndjson" % (prefix, kind))
+            files[kind] = [p, open(p, "w"), 0]
+            if kind == "tableobs":
+                files[kind][1].write('{"op":"reset"}\n')
+        return files[kind]
+
+    if os.path.exists(side_path):
+        with open(side_path) as f:
+            for line in f:
+                line = line.strip()
+                if not line:
+                    continue
+                doc = json.loads(line)
+                if "kind" in doc and "docs" in doc:
+                    o = out(doc["kind"])
+                    for d in doc["docs"]:
+                        o[1].write(json.dumps(d, separators=(",", ":")) + "\n")
+                        o[2] += 1
+                else:
+                    o = out(doc.get("op", "misc"))
+                    o[1].write(line + "\n")
+                    o[2] += 1
+    res = {}
+    for k, (p, fh, n) in files.items():
+        fh.close()
+        res[k] = (p, n)
+    return res
+
+
 def record(seed, ncases, prefix, obs_every=0, adv_every=2, timeout=120):
     """Seeded random histories through the real code.  Returns (outcome, case file,
     {kind: (path, n)}) with kinds "transfer" (trace) and "tableobs"."""
@@ -87,7 +124,7 @@ def record(seed, ncases, prefix, obs_every=0, adv_every=2, timeout=120):
                                 "adv": bool(adv_every) and i % adv_every == 1}) + "\n")
     side = os.path.join(vlib.sub("traces"), "%s.side" % prefix)
     out = vlib.replay("transferrec", cases, side_path=side, timeout=timeout)
-    return out, cases, ic.split_side(side, prefix)
+    return out, cases, split_side(side, prefix)
 
 
 def validate(trace_path, cfg, max_rejections=5, label="tr"):
